@@ -477,6 +477,9 @@ func runStreams(c *Ctx, prop string) {
 			}
 		}
 	}
+	if prop == "C06" {
+		c17Mux(c, "C06") // HttpBody uploads against small chunk sizes: every chunk, in order, nothing lost at the end
+	}
 	c06Grpc(c, prop, sfx)
 	if prop == "C08" {
 		c08Limits(c)
